@@ -410,19 +410,25 @@ impl Buffer {
     }
 
     fn remove_terminal_line(&mut self, layer: usize, line: i32) {
-        if line >= self.layers[layer].get_line_count() {
+        if line < 0 || line >= self.layers[layer].get_line_count() {
             return;
         }
         self.layers[layer].remove_line(line);
         if let Some((_, end)) = self.terminal_state.get_margins_top_bottom() {
-            let buffer_width = self.layers[layer].get_width();
-            self.layers[layer].insert_line(end, Line::with_capacity(buffer_width));
+            // a margin of 0 in the sequence is stored as -1
+            if end >= 0 {
+                let buffer_width = self.layers[layer].get_width();
+                self.layers[layer].insert_line(end, Line::with_capacity(buffer_width));
+            }
         }
     }
 
     fn insert_terminal_line(&mut self, layer: usize, line: i32) {
+        if line < 0 {
+            return;
+        }
         if let Some((_, end)) = self.terminal_state.get_margins_top_bottom() {
-            if end < self.layers[layer].get_line_count() {
+            if end >= 0 && end < self.layers[layer].get_line_count() {
                 self.layers[layer].lines.remove(end as usize);
             }
         }
